@@ -6,6 +6,7 @@ import (
 	"flag"
 	"fmt"
 	"math/big"
+	"math/rand"
 	"regexp"
 	"sort"
 
@@ -351,6 +352,7 @@ func ledgerReplay(args []string) error {
 	out := fs.String("out", "trace.ndjson", "ndjson trace to write")
 	ntx := fs.Int("ntx", 3, "number of abstract tx ids (NTx of the spec)")
 	reopen := fs.Bool("reopen", false, "also project a ledger reopened on a copy of the image after every step")
+	faultPct := fs.Int("faults", 0, "percentage of operations whose first storage write is made to fail first (C05); the operation is then run again")
 	cutsOn := fs.Bool("cuts", false, "reopen a ledger on the image after every prefix of each operation's storage writes (crash points, C06)")
 	fs.Parse(args)
 	behs, err := fx.LoadBehaviours(*in)
@@ -362,7 +364,7 @@ func ledgerReplay(args []string) error {
 		return err
 	}
 	defer tw.Close()
-	ops, ncuts := 0, 0
+	ops, ncuts, nfaults := 0, 0, 0
 	for k, beh := range behs {
 		s, err := newLedgerSim(fmt.Sprintf("L%d", k), *ntx)
 		if err != nil {
@@ -374,7 +376,34 @@ func ledgerReplay(args []string) error {
 			fx.CloneTree(s.node.Root, fx.DataPrefix(base))
 			fx.StartLog()
 		}
+		rng := rand.New(rand.NewSource(seed()*6007 + int64(k)))
 		for i, op := range beh {
+			// C05: the operation's first storage write fails: it must report failure and leave no trace, live and reopened
+			if *faultPct > 0 && rng.Intn(100) < *faultPct {
+				fx.FailAfter(0)
+				fres, ferr := s.step(op)
+				if ferr != nil {
+					return fmt.Errorf("behaviour %d step %d (faulted): %v", k, i, ferr)
+				}
+				if fx.FailPending() { // the operation issued no write: nothing was injected
+					fx.FailAfter(-1)
+				} else {
+					fev := fx.Ev{"tr": k, "i": i, "fault": true, "res": fres, "obs": s.projectLedger(s.node.Ledger)}
+					for kk, v := range op {
+						if kk != "res" {
+							fev[kk] = v
+						}
+					}
+					if r, err := s.node.CloneLedgerOnly(fmt.Sprintf("L%dr", k)); err != nil {
+						fev["reopen_err"] = err.Error()
+					} else {
+						fev["robs"] = s.projectLedger(r.Ledger)
+						r.Drop()
+					}
+					tw.Emit(fev)
+					nfaults++
+				}
+			}
 			nPre, wa := s.n, fx.LogLen()
 			res, err := s.step(op)
 			if err != nil {
@@ -425,6 +454,6 @@ func ledgerReplay(args []string) error {
 			fx.DropTree(fx.DataPrefix(base))
 		}
 	}
-	fmt.Printf("{\"behaviours\":%d,\"ops\":%d,\"cuts\":%d}\n", len(behs), ops, ncuts)
+	fmt.Printf("{\"behaviours\":%d,\"ops\":%d,\"cuts\":%d,\"faults\":%d}\n", len(behs), ops, ncuts, nfaults)
 	return nil
 }
